@@ -9,7 +9,8 @@
       ots = Object.prototype.toString, fts = Function.prototype.toString,
       dgt = Date.prototype.getTime, svo = String.prototype.valueOf,
       nvo = Number.prototype.valueOf, bvo = Boolean.prototype.valueOf,
-      jstr = JSON.stringify, S = String, ajoin = Array.prototype.join;
+      jstr = JSON.stringify, S = String, ajoin = Array.prototype.join,
+      ipo = Object.prototype.isPrototypeOf, OP = Object.prototype, FP = Function.prototype, AP = Array.prototype;
   var probes = [];
   global.__probe = function (name, fn) { probes[probes.length] = [name, fn]; };
   global.__dump = function () {
@@ -76,6 +77,17 @@
       out[out.length] = "probe " + probes[p][0] + " " + r;
     }
     drain();
+    // generic inheritance probe: which of THIS runtime's intrinsic prototypes (captured before
+    // H ran) every object-valued global inherits from; a global whose prototype chain ends in
+    // another runtime's intrinsics shows "---"
+    var gn = gopn(global), gi, gd, gv;
+    for (gi = 0; gi < gn.length; gi++) {
+      gd = gopd(global, gn[gi]);
+      if (gd === undefined || !("value" in gd)) { continue; }
+      gv = gd.value;
+      if (gv === null || (typeof gv !== "object" && typeof gv !== "function")) { continue; }
+      out[out.length] = "inherits " + gn[gi] + " " + (ipo.call(OP, gv) ? "O" : "-") + (ipo.call(FP, gv) ? "F" : "-") + (ipo.call(AP, gv) ? "A" : "-");
+    }
     return ajoin.call(out, "\n");
   };
 })(this);
